@@ -1,6 +1,45 @@
-//! Component `core` (see /verif/FRAMEWORK.md).
+//! Component `core`: the core view of a simulated cluster run (see sim.rs / coreview.rs).
+use crate::sim::Sim;
+use crate::util::{GenArgs, Trace};
 
-pub fn main(mode: &str, _args: &[String]) {
-    eprintln!("component core: mode {mode} not implemented yet");
-    std::process::exit(2);
+pub fn run_case(tr: &mut Trace, idx: u64, subseed: u64, steps: u32) {
+    tr.case(idx, subseed, &format!("core steps={steps} reserve=1 max=1"));
+    let mut sim = Sim::new(subseed);
+    for _ in 0..steps {
+        if sim.panicked.is_some() {
+            break;
+        }
+        sim.step();
+    }
+    if sim.panicked.is_none() {
+        sim.drain(60);
+    }
+    for l in &sim.core.lines {
+        tr.line(l);
+    }
+    tr.end();
+}
+
+pub fn main(mode: &str, args: &[String]) {
+    let a = GenArgs::parse(args);
+    let mut tr = Trace::new();
+    match mode {
+        "gen" => {
+            let steps: u32 = a.value("--steps").map(|s| s.parse().unwrap()).unwrap_or(if a.thorough { 120 } else { 60 });
+            for k in 0..a.cases {
+                let subseed = a.case_seed(k);
+                run_case(&mut tr, a.shard * 1_000_000 + k, subseed, steps);
+            }
+        }
+        "case" => {
+            let subseed: u64 = args[0].parse().unwrap();
+            let steps: u32 = args[1].parse().unwrap();
+            run_case(&mut tr, 0, subseed, steps);
+        }
+        _ => {
+            eprintln!("component core: unknown mode {mode}");
+            std::process::exit(2);
+        }
+    }
+    tr.flush();
 }
